@@ -54,6 +54,14 @@ def gen_cases(tier, seed):
         cases.append(dict(part='moving', lat=la, lon=lo2, alt=al, speed=sp, course=co, climb=cl,
                           attitude=att, weave=weave, form=form, type=typ, ladder=ldr, T=8.0,
                           phase=phase))
+    # long fast meridional flights (1 h): the latitude fixed-point iteration of the
+    # initial-position form only matters here
+    for la, co, form, typ in itertools.product((38.0, -38.0), (0.0, 180.0), FORMS, ('rate', 'increment')):
+        if tier == 'quick' and form != 'lla0_vel':
+            continue
+        cases.append(dict(part='moving', long=True, lat=la, lon=20.0 + lon_shift, alt=9000.0, speed=280.0,
+                          course=co, climb=0.0, attitude='tilt', weave=False, form=form, type=typ,
+                          ladder=[8.0, 4.0, 2.0, 1.0], T=3600.0, phase=phase))
     # rest lattice
     lats = (-85.0, -40.0, 0.0, 55.0, 85.0)
     alts = (-500.0, 0.0, 20000.0)
@@ -176,6 +184,12 @@ def run_moving(case):
             F['gyro'].append(fg)
             F['accel'].append(fa)
         F['traj_pos'].append(64 * EPS * R_EARTH)
+        if case.get('long') and form == 'lla0_vel':
+            # the library integrates latitude by a fixed-point iteration that it stops at
+            # ACCURACY = 0.01 m (sim.generate_imu); a position error drifting by that much over
+            # the run biases the Hermite-spline acceleration by 6 * (drift per sample) / dt^2
+            F['traj_pos'][-1] += 0.01
+            F['accel'][-1] += 6 * 0.01 / (case['T'] * dt) * (dt if inc_type else 1.0)
         F['traj_vel'].append(40 * EPS * R_EARTH / dt)
         F['inv_vel'].append(fa * dt * np.sqrt(n_steps) + 64 * EPS * 400 * np.sqrt(n_steps))
         F['inv_pos'].append(F['inv_vel'][-1] * case['T'] + 64 * EPS * R_EARTH * np.sqrt(n_steps))
@@ -205,6 +219,8 @@ def run_moving(case):
                                    - att_err(fn['sol'][::2, 6:9], ft[:, 6:9])).max())
     stats = {}
     for q in E:
+        if case.get('long') and q.startswith('inv_'):
+            continue        # an hour of free-inertial drift is C01's subject, not the synthesiser's
         Hq = list(H[q])
         if q == 'inv_att':
             # scalar angle differences under-estimate the vector change: use the errors themselves
